@@ -429,3 +429,18 @@ def run(pm, ctx):
     run_decisions(pm, ctx, 'C07-RD', OWN['C07'])
     from .. import exprdrift
     exprdrift.run(pm, ctx, 'C07-RE', OWN['C07'])
+    # the strict unknown-field test compares with the declared names of *this* type
+    from ..dataflow import defs as _defs
+    dsf = pm.func(DEC + '.decode_struct')
+    vals = [unparse(v) for v in _defs(dsf.node).all_values('all_field_names')]
+    okn = bool(vals) and 'data_type.definition._all_field_names_' in vals and all(
+        v == 'data_type.definition._all_field_names_' or v.startswith('all_field_names.union(')
+        for v in vals)
+    ctx.check('C07-R5', okn, 'decode_struct takes the known field names from the definition of the '
+              'type being decoded (plus the caller\'s permission sets)', dsf.loc,
+              msg='decode_struct computes the set of known field names as %s: it no longer is '
+                  'the declared names of the type being decoded, so strict decoding accepts or '
+                  'refuses the wrong keys' % vals, key='C07-R5|%s|known-names' % dsf.qualname)
+    ctx.import_rules(pm, 'C10', {'C10-R5'}, 'C07-R10',
+                     'defaults of new fields are emitted after every type they refer to (shared with '
+                     'C10-R5)')
